@@ -243,7 +243,7 @@ def run(rep, tier, seed):
                   'plus the shipped 7x7 view', 'functions': O.ALL_FUNCS, 'stochastic_variants': f'two extreme scripted draws + {len(seeds)} numpy seeds'}
     tot = [0, 0, 0]
     fails = []
-    for n, states, nt, fl, sample in pmap(_work, jobs):
+    for n, states, nt, fl, sample in dyn.pmap_w('work', _work, jobs):
         tot[0] += n
         tot[1] += states
         tot[2] += nt
@@ -270,3 +270,6 @@ def run(rep, tier, seed):
         rule='case = (labelled grid with a subset of opaque cells, pose, view area, observation function); each '
         'enumerated once; all are non-trivial in the sense that every cell of the view is compared with the world',
     )
+
+
+WORKERS = {'work': _work}
